@@ -264,16 +264,10 @@ func ruleRetryPath(c *Ctx) {
 	info := fn.Info()
 	fg := newFlowGraph(info, fn.Decl.Body)
 	// every edge on which `sent` is known to be false: from there, every path to `return false` passes a db.Update
-	updates := fg.FindCalls(func(f *types.Func, call *ast.CallExpr) bool {
-		return f != nil && f.Name() == "Update" && f.Pkg() != nil && f.Pkg().Path() == "github.com/tidwall/buntdb"
-	})
+	// the re-insert: a queue-database transaction, directly or inside a helper (reinsert); the first
+	// transaction of proc (the one that collects and deletes) precedes the send loop and is not on these paths
 	isUpd := func(l Loc) bool {
-		for _, u := range updates {
-			if u.Block == l.Block && u.Idx == l.Idx {
-				return true
-			}
-		}
-		return false
+		return callsThrough(c, info, l.Node, isBuntUpdate, 2)
 	}
 	nEdges := 0
 	skipAny := false
@@ -287,6 +281,12 @@ func ruleRetryPath(c *Ctx) {
 			for _, f := range fg.edgeFacts(b, si) {
 				if id, ok := ast.Unparen(f.E).(*ast.Ident); ok && id.Name == "sent" && f.Neg {
 					notSent = true
+				}
+				// !h.sendToAny(...): a helper that performs the sends and reports whether one succeeded
+				if call, ok := ast.Unparen(f.E).(*ast.CallExpr); ok && f.Neg && f.Tag == nil {
+					if cf := callee(info, call); cf != nil && c.FuncOf(cf) != nil && callsThrough(c, info, call, isEndpointSend, 2) {
+						notSent = true
+					}
 				}
 			}
 			if !notSent {
@@ -335,6 +335,28 @@ func ruleRetryPath(c *Ctx) {
 		}
 		return true
 	})
+	if len(idx) == 0 {
+		// the tails handed to a re-insert helper: h.reinsert(keys[i:], vals[i:], ttls[i:], …)
+		ast.Inspect(fn.Decl.Body, func(n ast.Node) bool {
+			call, ok := n.(*ast.CallExpr)
+			if !ok || len(idx) > 0 {
+				return true
+			}
+			cf := callee(info, call)
+			if cf == nil || c.FuncOf(cf) == nil || !callsThrough(c, info, call, isBuntUpdate, 2) {
+				return true
+			}
+			for _, a := range call.Args {
+				if sl, ok := ast.Unparen(a).(*ast.SliceExpr); ok && sl.Low != nil && sl.High == nil {
+					if id, ok := ast.Unparen(sl.X).(*ast.Ident); ok {
+						names = append(names, id.Name)
+						idx = append(idx, exprStr(sl.Low))
+					}
+				}
+			}
+			return true
+		})
+	}
 	okIdx := len(idx) >= 3
 	for _, s := range idx {
 		if s != idx[0] {
@@ -595,15 +617,7 @@ func ruleDrainComplete(c *Ctx) {
 		if !ok || sendLoop != nil {
 			return true
 		}
-		hasSend := false
-		ast.Inspect(rs.Body, func(m ast.Node) bool {
-			if call, ok := m.(*ast.CallExpr); ok {
-				if f := callee(info, call); f != nil && f.Name() == "Send" && isMethod(f, "github.com/tidwall/tile38/internal/endpoint", "Manager", "Send") {
-					hasSend = true
-				}
-			}
-			return true
-		})
+		hasSend := callsThrough(c, info, rs.Body, isEndpointSend, 2)
 		if hasSend {
 			if _, inner := ast.Unparen(rs.X).(*ast.SelectorExpr); !inner { // skip `range h.Endpoints`
 				sendLoop = rs
@@ -762,4 +776,41 @@ func mentionsFieldNamed(info *types.Info, e ast.Expr, name string) bool {
 		return true
 	})
 	return hit
+}
+
+// callsThrough: node n contains a call for which pred holds, directly or inside a tile38 function it calls
+// (helpers, up to two levels).
+func callsThrough(c *Ctx, info *types.Info, n ast.Node, pred func(f *types.Func, call *ast.CallExpr) bool, depth int) bool {
+	hit := false
+	ast.Inspect(n, func(x ast.Node) bool {
+		if hit {
+			return false
+		}
+		call, ok := x.(*ast.CallExpr)
+		if !ok {
+			return true
+		}
+		f := callee(info, call)
+		if pred(f, call) {
+			hit = true
+			return false
+		}
+		if depth > 0 && f != nil {
+			if fi := c.FuncOf(f); fi != nil {
+				if callsThrough(c, fi.Info(), fi.Decl.Body, pred, depth-1) {
+					hit = true
+				}
+			}
+		}
+		return true
+	})
+	return hit
+}
+
+func isEndpointSend(f *types.Func, _ *ast.CallExpr) bool {
+	return f != nil && isMethod(f, modPath+"/internal/endpoint", "Manager", "Send")
+}
+
+func isBuntUpdate(f *types.Func, _ *ast.CallExpr) bool {
+	return f != nil && f.Name() == "Update" && f.Pkg() != nil && f.Pkg().Path() == "github.com/tidwall/buntdb"
 }
